@@ -226,8 +226,9 @@ Proof.
   { apply gd_try; [apply gd_bind_l; gds|]. intro. apply gd_ret. reflexivity. }
   intros [|]; [gds|].
   apply (gd_bind_dep F (fun a : bool => a)).
-  { apply gd_try.
-    - apply gd_bind_l; [|gds]. apply p_list_sgd. gds.
+  { apply gd_try_else_l.
+    - apply p_list_sgd. gds.
+    - intro l. gds.
     - intros [| |]; first [apply gd_fail | apply gd_ret; reflexivity]. }
   intros [|]; [gds|].
   gds.
